@@ -1,7 +1,12 @@
-(* OpPoint: hand-written executable model of Pipeline.find_operating_point: the feasibility test at the
-   minimum-friction flow, and scipy.optimize.root_scalar(f, x0=, x1=) = newton()'s secant branch
-   (tol = 1.48e-8, rtol = 0, maxiter = 50, disp = False), written out.  The head gap is a parameter.
-   Tied to the code by tools/harness/corr_oppoint.py (recorded gap tables; visited abscissae compared).  No proofs here. *)
+(* OpPoint: hand-written executable model of Pipeline.find_operating_point (after the repair 6233bcf): the feasibility
+   test at the minimum-friction flow; scipy.optimize.root_scalar(f, x0=, x1=) = newton()'s secant branch
+   (tol = 1.48e-8, rtol = 0, maxiter = 50, disp = False), written out, inside a try that swallows an IndexError raised
+   by an evaluation of the head gap; its result is accepted when it converged at or right of the minimum-friction flow;
+   otherwise, when the head gap is positive at the largest flow, the bracketing root_scalar(bracket=[qimin, qlast])
+   -- an ORACLE here: its answer (converged flag, root) and the two heads at that root are parameters -- accepted only
+   when the heads at its root agree to 1e-6 relative.  The head gap and the set of flows at which evaluating it raises
+   IndexError are parameters.  Tied to the code by tools/harness/corr_oppoint.py (recorded gap tables; visited
+   abscissae compared).  No proofs here. *)
 From Coq Require Import ZArith List Bool.
 From DHV Require Import NumOps.
 Import ListNotations.
@@ -9,6 +14,7 @@ Import ListNotations.
 Section OpPoint.
 Context {T : Type} (N : NumOps T).
 Variable gap : T -> T.              (* q |-> slurry system head - slurry pump head *)
+Variable raises : T -> bool.        (* evaluating the gap at q raises IndexError (q outside a pump / driver table) *)
 
 Definition tol : T := nlit N 148%Z 10000000000%positive.
 
@@ -18,34 +24,57 @@ Definition secant_step (p0 q0 p1 q1 : T) : T :=
   then ndiv N (nadd N (nmul N (ndiv N (nneg N q0) q1) p1) p0) (nsub N (nint N 1%Z) (ndiv N q0 q1))
   else ndiv N (nadd N (nmul N (ndiv N (nneg N q1) q0) p0) p1) (nsub N (nint N 1%Z) (ndiv N q1 q0)).
 
-(* returns (root estimate, converged, abscissae at which the gap was evaluated inside the loop) *)
-Fixpoint secant_loop (fuel : nat) (p0 q0 p1 q1 : T) (visited : list T) : T * bool * list T :=
+(* returns (Some (root estimate, converged) | None = IndexError, abscissae at which the gap was evaluated inside the loop) *)
+Fixpoint secant_loop (fuel : nat) (p0 q0 p1 q1 : T) (visited : list T) : option (T * bool) * list T :=
   match fuel with
-  | O => (p1, false, visited)
+  | O => (Some (p1, false), visited)
   | S k =>
-    if neqb N q1 q0 then (ndiv N (nadd N p1 p0) (nlit N 20%Z 10%positive), false, visited)
+    if neqb N q1 q0 then (Some (ndiv N (nadd N p1 p0) (nlit N 20%Z 10%positive), false), visited)
     else
       let p := secant_step p0 q0 p1 q1 in
-      if nleb N (nabs N (nsub N p p1)) tol then (p, true, visited)
+      if nleb N (nabs N (nsub N p p1)) tol then (Some (p, true), visited)
+      else if raises p then (None, visited ++ [p])
       else secant_loop k p1 q1 p (gap p) (visited ++ [p])
   end.
 
-Definition secant (x0 x1 : T) : T * bool * list T :=
-  let q0 := gap x0 in
-  let q1 := gap x1 in
-  if nltb N (nabs N q1) (nabs N q0) then secant_loop 50 x1 q1 x0 q0 [x0; x1]
-  else secant_loop 50 x0 q0 x1 q1 [x0; x1].
+Definition secant (x0 x1 : T) : option (T * bool) * list T :=
+  if raises x0 then (None, [x0])
+  else if raises x1 then (None, [x0; x1])
+  else
+    let q0 := gap x0 in
+    let q1 := gap x1 in
+    if nltb N (nabs N q1) (nabs N q0) then secant_loop 50 x1 q1 x0 q0 [x0; x1]
+    else secant_loop 50 x0 q0 x1 q1 [x0; x1].
 
-Inductive outcome : Type := Ok (root : T) | OperatingPointError | ValueError.
+Inductive outcome : Type := Ok (root : T) | OperatingPointError | ValueError | IndexErr.
 
-(* hsys, hpump : slurry system head and slurry pump head at qimin (imins[0], imins[3]) *)
-Definition find_operating_point (qimin qlast hsys hpump : T) : outcome * list T :=
+(* the root the unbracketed search is allowed to contribute *)
+Definition accepted (qimin : T) (r : option (T * bool)) : option T :=
+  match r with
+  | Some (root, true) => if nleb N qimin root then Some root else None
+  | _ => None
+  end.
+
+(* |hs - hp| <= 1e-6 max(|hs|, |hp|) *)
+Definition heads_equal (hs hp : T) : bool :=
+  nleb N (nabs N (nsub N hs hp)) (nmul N (nlit N 1%Z 1000000%positive) (nmax N (nabs N hs) (nabs N hp))).
+
+(* hsys, hpump : slurry system head and slurry pump head at qimin (imins[0], imins[3]);
+   bconv, broot : the answer of the bracketing solver; hs_b, hp_b : the two heads at broot *)
+Definition find_operating_point (qimin qlast hsys hpump : T) (bconv : bool) (broot hs_b hp_b : T) : outcome * list T :=
   if nltb N hpump hsys then (OperatingPointError, [])
   else
     let x1 := ndiv N (nadd N qimin qlast) (nint N 2%Z) in
     if neqb N x1 qimin then (ValueError, [])
     else
-      let '(r, conv, vis) := secant qimin x1 in
-      (if conv then Ok r else OperatingPointError, vis).
+      let '(r, vis) := secant qimin x1 in
+      match accepted qimin r with
+      | Some root => (Ok root, vis)
+      | None =>
+        if raises qlast then (IndexErr, vis)
+        else if nltb N (nint N 0%Z) (gap qlast) then
+          (if andb bconv (heads_equal hs_b hp_b) then Ok broot else OperatingPointError, vis)
+        else (OperatingPointError, vis)
+      end.
 
 End OpPoint.
